@@ -1133,8 +1133,9 @@ func (e *Exec) nopanic(st *State, what string, in ssa.Instruction, goal string) 
 		pos := in.Pos()
 		anchor := what + "@" + e.srcAnchor(fr, in)
 		props := e.nopanicProps
-		if (what == "sendclosed" || what == "doubleclose" || what == "closenil") && len(props) > 0 && !contains(props, "C15") {
-			// panics of channel operations are what concurrent use provokes: also part of C15
+		if (what == "sendclosed" || what == "doubleclose" || what == "closenil" || what == "nilmap") && len(props) > 0 && !contains(props, "C15") {
+			// panics of channel operations and of writes to a map that a concurrent
+			// close may have released are what concurrent use provokes: also part of C15
 			props = append(append([]string(nil), props...), "C15")
 		}
 		e.oblige(st, "nopanic", anchor, props, what, goal, pos)
